@@ -61,15 +61,50 @@ package bmtree
 // ---- C03-C05 / C19: index <-> path ----
 
 //@ func shiftMulti returns (r)
+//@   ensures r == SM(a, b, shift, 64)
 //@   assigns nothing
+//@   use sm_skip(a, b, shift, 0, 64)
+//@   use forall m int :: sm_skip(a, b, shift, 0, m)
 //@   loop 1
-//@     invariant true
+//@     invariant old(shift) - shift <= 127
+//@     invariant b != 0 ==> old(shift) - shift <= 63 && b == old(b) >> (old(shift) - shift) && b & 1 == 1
+//@     invariant b == 0 ==> old(shift) - shift >= 64
+//@     invariant rst == SM(a, old(b), old(shift), ite(old(shift) - shift >= 64, 64, int(old(shift) - shift)))
+//@     use forall m int :: sm_skip(a, old(b), old(shift), int(old(shift) - shift) + 1, m)
 
+// PathToIndex: the same index (same spec function preIdx) for a node on a stored level.
 //@ func PathToIndex returns (idx)
+//@   requires 1 <= bitmapSize && wfPath(path, hgt(bitmapSize)) && (bitmapSize >> uint32(PC32(uint32(path)))) & 1 == 1
+//@   ensures idx == preIdx(bitmapSize, path)
 //@   assigns nothing
+//@   fuel 2
+//@   use pc32_le(uint32(path), int(hgt(bitmapSize)))
+//@   use pc64_split(path ^ 0xffffffff00000000)
+//@   use pc32_not(uint32(path >> 32))
+//@   use pc64_lowmask(int(PC32(uint32(path))))
+//@   use pc64_zero(uint64(uint32(bitmapSize)) & lowmask(int(PC32(uint32(path)))))
+//@   use sm_full(path >> 32, int(hgt(bitmapSize)), int(hgt(bitmapSize)) + 1)
+//@   use sm_skip(path >> 32, uint64(uint32(bitmapSize)), uint64(hgt(bitmapSize)), int(hgt(bitmapSize)) + 1, 64)
+//@   use sm_skip(path >> 32, uint64(uint32(bitmapSize)), uint64(hgt(bitmapSize)), 0, int(hgt(bitmapSize)))
+//@   use sm_skip(uint64(uint32(bitmapSize)), path >> 32, uint64(hgt(bitmapSize)), int(hgt(bitmapSize)), 64)
+//@   use sm_comm(uint64(uint32(bitmapSize)), path >> 32, int(hgt(bitmapSize)), int(hgt(bitmapSize)))
 
+// PathToIndexLoose: the number of stored nodes preceding the node in pre-order (preIdx), and
+// whether the node's own level is stored.
 //@ func PathToIndexLoose returns (idx, has)
+//@   requires 1 <= bitmapSize && wfPath(path, hgt(bitmapSize))
+//@   ensures idx == preIdx(bitmapSize, path)
+//@   ensures has == (bitmapSize >> uint32(PC32(uint32(path)))) & 1
 //@   assigns nothing
+//@   fuel 2
+//@   use pc32_le(uint32(path), int(hgt(bitmapSize)))
+//@   use pc64_split(path ^ 0xffffffff00000000)
+//@   use pc32_not(uint32(path >> 32))
+//@   use pc64_lowmask(int(PC32(uint32(path))))
+//@   use pc64_zero(uint64(uint32(bitmapSize)) & lowmask(int(PC32(uint32(path)))))
+//@   use sm_full(path >> 32, int(hgt(bitmapSize)), int(hgt(bitmapSize)) + 1)
+//@   use sm_skip(path >> 32, uint64(uint32(bitmapSize)), uint64(hgt(bitmapSize)), int(hgt(bitmapSize)) + 1, 64)
+//@   use sm_skip(path >> 32, uint64(uint32(bitmapSize)), uint64(hgt(bitmapSize)), 0, int(hgt(bitmapSize)))
 
 // the lookup tables for the last levels: row 2^lvl holds, at position i, the path of the node
 // with pre-order index i in the full tree of height lvl
